@@ -232,6 +232,12 @@ class Roles:
                     return 'store'
                 if t[1].name == 'EventManagerLike':
                     return 'event'
+                if t[1].name == 'PipelineContextLike':
+                    # a user-supplied context: its emit_* / save_node_result are the collaborator calls
+                    if t[2].startswith('emit_'):
+                        return 'event'
+                    if t[2].startswith('save_'):
+                        return 'store'
         if all(t[0] == 'unknown' for t in ev.info.get('targets', ())) and isinstance(c, ast.Call):
             ft = sym.term(self.p, c.func, ev.inst)
             # callback = getattr(mgr, event_name) with mgr an element of the event managers
